@@ -260,13 +260,17 @@ def _rebuild_exc(exc, tb):
 
 class _WorkItem:
 
-    __slots__ = ["future", "fn", "args", "kwargs"]
+    __slots__ = ["future", "fn", "args", "kwargs", "loky_pickler"]
 
     def __init__(self, future, fn, args, kwargs):
         self.future = future
         self.fn = fn
         self.args = args
         self.kwargs = kwargs
+
+        # Record the loky_pickler in use when the task is submitted, so that
+        # the worker uses the same one whenever the task gets dispatched.
+        self.loky_pickler = get_loky_pickler_name()
 
 
 class _ResultItem:
@@ -277,14 +281,17 @@ class _ResultItem:
 
 
 class _CallItem:
-    def __init__(self, work_id, fn, args, kwargs):
+    def __init__(self, work_id, fn, args, kwargs, loky_pickler=None):
         self.work_id = work_id
         self.fn = fn
         self.args = args
         self.kwargs = kwargs
 
-        # Store the current loky_pickler so it is correctly set in the worker
-        self.loky_pickler = get_loky_pickler_name()
+        # Store the loky_pickler selected at submission time (the current one
+        # by default) so it is correctly set in the worker
+        if loky_pickler is None:
+            loky_pickler = get_loky_pickler_name()
+        self.loky_pickler = loky_pickler
 
     def __call__(self):
         set_loky_pickler(self.loky_pickler)
@@ -661,6 +668,7 @@ class _ExecutorManagerThread(threading.Thread):
                             work_item.fn,
                             work_item.args,
                             work_item.kwargs,
+                            loky_pickler=work_item.loky_pickler,
                         ),
                         block=True,
                     )
